@@ -107,7 +107,7 @@ pub fn generate(a: &Args) {
     for c in enum_iterator::all::<DvbCode>() { lib.insert(format!("{c:?}"), json!(sha256_hex(c.h().alist().as_bytes()))); }
     let ksz = [(AR4JAInfoSize::K1024, 1024), (AR4JAInfoSize::K4096, 4096), (AR4JAInfoSize::K16384, 16384)];
     for r in enum_iterator::all::<AR4JARate>() { for (k, _) in ksz.iter() {
-        if matches!(k, AR4JAInfoSize::K16384) && !th { continue; }
+        // (k = 16384 too, also in the quick tier: the CLI's own size table is only exercised by asking for every size)
         lib.insert(format!("{r:?}_{k:?}"), json!(sha256_hex(AR4JACode::new(r, *k).h().alist().as_bytes())));
     } }
     lib.insert(s("C2"), json!(sha256_hex(C2Code::new().h().alist().as_bytes())));
@@ -125,8 +125,8 @@ pub fn generate(a: &Args) {
         out.ev("Gen", "ok", ev);
     } }
     // ccsds: every (rate, block size) combination
-    for rate in ["1/2", "2/3", "4/5", "3/4", "7/8", ""] { for bs in ["1024", "4096", "16384", "2048", "0", "1000"] {
-        if bs == "16384" && !th && rate != "3/4" { continue; }
+    for rate in ["1/2", "2/3", "4/5", "3/4", "7/8", ""] { for bs in ["1024", "4096", "16384", "2048", "0", "1000", "16348", "4069"] {
+        if (bs == "16348" || bs == "4069") && rate != "1/2" && rate != "7/8" { continue; }
         out.new_case();
         let args = vec![s("ccsds"), s("--rate"), s(rate), s("--block-size"), s(bs)];
         let r = run_cli(&work, &args, 300);
